@@ -435,9 +435,17 @@ theorem rel_setW_model {s : World} {j : JState} (h : Rel s j) (w : Nat) (k k' : 
     · cases hk0; exact hok
     · exact h.wok w' k0 hk0
 
-theorem wkOk_create : WkOk Wk.create := ⟨Or.inl rfl, by simp [Wk.create]⟩
+theorem create_eq : Wk.create = { state := .running, th := .spawned } := by decide
 
-theorem wkOk_started : WkOk (Wk.create.threadStep false) := ⟨Or.inr (Or.inl rfl), by simp [Wk.create, Wk.threadStep]⟩
+theorem createRace_eq : Wk.createSeq true createProg {} = { state := .stopped, th := .exited } := by decide
+
+theorem wkOk_create : WkOk Wk.create := by rw [create_eq]; exact ⟨Or.inl rfl, by simp⟩
+
+theorem wkOk_started : WkOk (Wk.create.threadStep false) := by
+  rw [create_eq]; exact ⟨Or.inr (Or.inl rfl), by simp [Wk.threadStep]⟩
+
+theorem wkOk_raced : WkOk (Wk.createSeq true createProg {}) := by
+  rw [createRace_eq]; exact ⟨Or.inr (Or.inr rfl), by simp⟩
 
 theorem wkOk_release (k : Wk) (h : k.th = .spawned) : WkOk (k.threadStep false) :=
   ⟨Or.inr (Or.inl (by simp [Wk.threadStep, h])), by simp [Wk.threadStep, h]⟩
@@ -482,8 +490,8 @@ theorem joinAlone_exited (k : Wk) (t n : Nat) (hst : k.state = .stopped) (hth : 
   simp [Wk.joinAlone, Wk.joinStep, hst, hth]
 
 
-theorem rel_wnew (s : World) (j : JState) (h : Rel s j) (w : Nat) (hold : Bool) :
-    Rel (stepE s (.wnew w hold)).1 (judgeRun j (stepE s (.wnew w hold)).2) := by
+theorem rel_wnew (s : World) (j : JState) (h : Rel s j) (w : Nat) (mode : NewMode) :
+    Rel (stepE s (.wnew w mode)).1 (judgeRun j (stepE s (.wnew w mode)).2) := by
   simp only [stepE]
   cases hg : s.getW w with
   | some k => exact rel_same s j h _ rfl
@@ -491,9 +499,19 @@ theorem rel_wnew (s : World) (j : JState) (h : Rel s j) (w : Nat) (hold : Bool) 
     simp only
     rw [judgeRun_single h]
     simp only [judgeCore]
-    cases hold with
-    | true => exact rel_setW h w _ wkOk_create
-    | false => exact rel_setW h w _ wkOk_started
+    cases mode with
+    | hold =>
+      have : ({ exited := decide (NewMode.hold = NewMode.race) } : JW) = jwOf Wk.create := by rw [create_eq]; rfl
+      rw [this]
+      exact rel_setW h w _ wkOk_create
+    | run =>
+      have : ({ exited := decide (NewMode.run = NewMode.race) } : JW) = jwOf (Wk.create.threadStep false) := by rw [create_eq]; rfl
+      rw [this]
+      exact rel_setW h w _ wkOk_started
+    | race =>
+      have : ({ exited := decide (NewMode.race = NewMode.race) } : JW) = jwOf (Wk.createSeq true createProg {}) := by rw [createRace_eq]; rfl
+      rw [this]
+      exact rel_setW h w _ wkOk_raced
 
 theorem rel_wstate (s : World) (j : JState) (h : Rel s j) (w : Nat) :
     Rel (stepE s (.wstate w)).1 (judgeRun j (stepE s (.wstate w)).2) := by
@@ -984,7 +1002,7 @@ theorem rel_step (s : World) (j : JState) (h : Rel s j) (c : Cmd) :
   | deq b => exact rel_deq s j h b
   | qstat => exact rel_qstat s j h
   | qclear => exact rel_qclear s j h
-  | wnew w hold => exact rel_wnew s j h w hold
+  | wnew w mode => exact rel_wnew s j h w mode
   | wstate w => exact rel_wstate s j h w
   | wrelease w => exact rel_wrelease s j h w
   | wstep w => exact rel_wstep s j h w
